@@ -54,6 +54,9 @@ class Ctx:
         self.bias_all = BIAS_ALL
         self.assumptions = []  # textual list of libm contract instances used
         self.kinds = {}
+        self.invdef = {}
+        self.invorder = []
+        self.inv_atoms = False
         self.nonneg = set()
         self.monomial_sqrt = True
 
@@ -298,6 +301,30 @@ class LP:
         """Decide self == 0 modulo the relations (reduced atoms are non-zero where they occur inverted)."""
         ctx = self.ctx
         p = self
+        # eliminate inverse atoms q = 1/P (latest first): sum_j c_j q^j  ->  sum_j c_j P^(m-j)
+        for qi in reversed(ctx.invorder):
+            hi, lo = p.max_exp(qi), p.min_exp(qi)
+            if hi == 0 and lo == 0:
+                continue
+            if lo < 0:
+                # q^-1 = P
+                pass
+            P = ctx.invdef[qi]
+            sh = BITS * qi
+            groups = {}
+            for m, c in p.t.items():
+                e = ((m >> sh) & MASK) - BIAS
+                groups.setdefault(e, {})[m - (e << sh)] = c
+            acc = LP(ctx, {}, 1)
+            pw_cache = {0: ctx.const_lp(1)}
+
+            def Ppow(k):
+                if k not in pw_cache:
+                    pw_cache[k] = Ppow(k - 1) * P
+                return pw_cache[k]
+            for e, terms in groups.items():
+                acc = acc + LP(ctx, terms, p.den) * Ppow(hi - e)
+            p = acc.reduce()
         for _ in range(4):
             for i in sorted(ctx.rel):
                 lo = p.min_exp(i)
@@ -379,7 +406,21 @@ class RF:
                 ctx.nonzero.setdefault(i, "denominator")
             r = n.inv_term()
             return RF(r * d) if d is not None else RF(r)
-        ctx.denoms.append(n) if hasattr(ctx, "denoms") else None
+        if getattr(ctx, "inv_atoms", False):
+            # represent 1/P by a unit atom q with the defining relation q * P = 1 (eliminated in the final zero test)
+            nn = n.copy()
+            nn.normalize()
+            key = ("inv", nn.den, tuple(sorted(nn.t.items())))
+            qi = ctx.index.get(key)
+            if qi is None:
+                qi = ctx.atom(key, "q%d" % len(ctx.names))
+                ctx.invdef[qi] = nn
+                ctx.invorder.append(qi)
+            # n = nn * (scale): 1/n = q / scale
+            m0 = min(nn.t)
+            scale = Fraction(n.t[m0], n.den) / Fraction(nn.t[m0], nn.den)
+            r = ctx.var_lp(qi).scale(1 / scale)
+            return RF(r * d) if d is not None else RF(r)
         return RF(d if d is not None else ctx.const_lp(1), n)
 
     def is_zero(self):
